@@ -159,15 +159,32 @@ fn strat(t: Tier) -> proptest::strategy::BoxedStrategy<ValidCase> {
     }
 }
 
+/// Automatic timestamps (encode_video / encode_audio): the implied timestamps are 0, sum(ms)/1000 and sum(samples)/rate; the
+/// audio and video samples must be presented at exactly those instants relative to each other (the same generator and tick
+/// arithmetic as C17's path check, restricted to the timing clause).
+fn eval_auto(c: &crate::props::c17::PathCase) -> Outcome {
+    let inner = crate::props::c17::eval_paths(c);
+    let mut o = Outcome::default();
+    o.nontrivial = inner.nontrivial;
+    o.sub_evals = inner.sub_evals;
+    o.aborted_by_panic = inner.aborted_by_panic;
+    for v in inner.violations {
+        if v.clause == "auto_ticks" {
+            o.violations.push(v);
+        }
+    }
+    o
+}
+
 pub fn def() -> PropertyDef {
     PropertyDef {
-        fuzz_targets: &[],
+        fuzz_targets: &["c01_scenario"],
         id: "C09",
         level: "exploration",
         rule: "A/V histories with independent start offsets (first video PTS 0 / random, first audio = first video + {0, 1 tick .. minutes}), \
                reordered video included; per-track presentation timelines (stts + ctts, mapped through an edit list when present) are compared \
                with the submitted timestamps to within one tick; non-trivial = first audio != first video PTS, or first video PTS != 0",
         assumptions: &["presentation time of sample i = sum of stts deltas + ctts offset, mapped through elst when present"],
-        subs: vec![Box::new(PSub { name: "sync", quick: 30000, thorough: 800000, strat, eval }), Box::new(LSub { name: "long_recordings", cases: long_cases_all, eval, note: LONG_NOTE })],
+        subs: vec![Box::new(PSub { name: "sync", quick: 30000, thorough: 800000, strat, eval }), Box::new(PSub { name: "auto_timestamps", quick: 6000, thorough: 150000, strat: crate::props::c17::path_strategy, eval: eval_auto }), Box::new(LSub { name: "long_recordings", cases: long_cases_all, eval, note: LONG_NOTE })],
     }
 }
